@@ -199,3 +199,7 @@ Proof.
   do 4 eexists. split; [vm_compute; reflexivity|]. split; [vm_compute; reflexivity|].
   split; [discriminate|]. split; [vm_compute; reflexivity|]. simpl. lia.
 Qed.
+
+(* round 4: no state outside the objects on the pulse-shape path (generated obligation) *)
+Lemma src_shape_path_stateless_ok : src_shape_path_stateless = true.
+Proof. vm_compute. reflexivity. Qed.
